@@ -93,7 +93,7 @@ class Goals:
 
 def window_cases(ctx, filters, np, G):
     r = ctx.rng
-    nw = ctx.scale(6, 120)
+    nw = ctx.scale(4, 120)
     per = ctx.scale(1, 6)
     for coqk, cls, area, _ in KINDS:
         win = getattr(filters, cls)()
@@ -119,7 +119,7 @@ def window_cases(ctx, filters, np, G):
 
 def gamma_cases(ctx, filters, np, G):
     r = ctx.rng
-    n = ctx.scale(16, 200)
+    n = ctx.scale(12, 200)
     per = ctx.scale(1, 5)
     for rep in range(n):
         order = r.choice([1, 2, 2, 3, 4, 4, 5, 6, 8])
@@ -206,7 +206,7 @@ def run_circshift(util, np, c):
 
 def circshift_cases(ctx, util, np, G, bad):
     r = ctx.rng
-    n = ctx.scale(45, 600)
+    n = ctx.scale(36, 600)
     for rep in range(n):
         c = circshift_inputs(ctx, np)
         ctx.count("csf:dft_" + c["mode"])
@@ -262,7 +262,7 @@ def circshift_cases(ctx, util, np, G, bad):
 
 def scalar_cases(ctx, util, np, G):
     r = ctx.rng
-    n = ctx.scale(36, 400)
+    n = ctx.scale(30, 400)
     ps = [0.5, 0.25, 0.75, 1.0000001e-20, 1 - 2.0 ** -53, 0.9999999e-20, 1e-300, 0.5 - 2.0 ** -54, 0.5 + 2.0 ** -53, 0.1, 0.9]
     while len(ps) < n:
         u = r.random()
@@ -410,9 +410,6 @@ def search_circshift(ctx, util, np, bad):
     r = ctx.rng
     for rep in range(ctx.scale(2500, 40000)):
         c = circshift_inputs(ctx, np)
-        if c["skind"] == "frac":
-            c["shift"] = int(round(c["shift"] * 4))
-            c["skind"] = "int"
         ctx.count("search:circshift")
         try:
             arr, before, out = run_circshift(util, np, c)
@@ -428,11 +425,17 @@ def search_circshift(ctx, util, np, bad):
         Y = np.zeros(d, dtype=complex)
         np.add.at(X, bins, before.astype(complex))
         np.add.at(Y, bins, out)
-        x, y = np.fft.ifft(X), np.fft.ifft(Y)
-        want = np.roll(x, int(c["shift"]))
-        tol = 1e-9 * (1.0 + float(np.max(np.abs(x))) if d else 1.0)
-        if not np.allclose(y, want, rtol=0, atol=tol):
-            bad.append(("circshift_shift_theorem", dict(case=c, max_abs_err=float(np.max(np.abs(y - want))))))
+        scale = 1.0 + (float(np.max(np.abs(X))) if d else 0.0)
+        # the documented formula DFT(T_u x)[k] = DFT(x)[k] exp(-2 pi i k shift / D), any real shift
+        want_spec = X * np.exp(-2j * np.pi * (float(c["shift"]) % d) / d * np.arange(d))
+        if not np.allclose(Y, want_spec, rtol=0, atol=1e-9 * scale):
+            bad.append(("circshift_documented_formula", dict(case=c, max_abs_err=float(np.max(np.abs(Y - want_spec))))))
+        if float(c["shift"]) == int(c["shift"]):
+            # integer shifts: ifft(out) = ifft(in) circularly shifted by `shift` samples
+            x, y = np.fft.ifft(X), np.fft.ifft(Y)
+            want = np.roll(x, int(c["shift"]))
+            if not np.allclose(y, want, rtol=0, atol=1e-9 * scale):
+                bad.append(("circshift_shift_theorem", dict(case=c, max_abs_err=float(np.max(np.abs(y - want))))))
         copy = True if c["copy"] is None else c["copy"]
         if copy and not np.array_equal(arr, before):
             bad.append(("circshift_modified_input", dict(case=c)))
@@ -460,7 +463,9 @@ def search_scalars(ctx, util, np, bad):
             [10 ** r.uniform(-20, math.log10(0.5)) for _ in range(ctx.scale(10000, 150000))]
             + [r.uniform(0.0, 1.0) for _ in range(ctx.scale(10000, 150000))]
             + [0.5 + k * 2.0 ** -40 for k in range(-20, 21)]
-            + [1e-20, 0.5, 0.25, 0.75, 1e-10, 1 - 1e-10]
+            + [10 ** r.uniform(-40, -19) for _ in range(200)]
+            + [1 - 2.0 ** -k for k in range(2, 54)]
+            + [1e-20, 0.5, 0.25, 0.75, 1e-10, 1 - 1e-10, 1e-300, 5e-324]
         )
     )
     ps = [p for p in ps if 0 < p < 1]
@@ -522,7 +527,7 @@ def certify(ctx, G):
         ctx.fail("model / evaluation lemmas no longer compile against the regenerated gen/WinHelp.v",
                  dict(correspondence="coq/C20/Eval.v", log_tail=out[-1500:]), kind="tie", no_input=True)
         return None
-    nsh = 12 if len(G.goals) >= 240 else max(1, len(G.goals) // 20)
+    nsh = max(8, (len(G.goals) + 399) // 400) if len(G.goals) >= 160 else max(1, len(G.goals) // 20)
     # round-robin so that the expensive goal kinds are spread over all shards
     files = [("cert_%d" % k, "".join(G.goals[k::nsh])) for k in range(nsh)]
     res = C.coq_eval_many(ctx, files, REQ, timeout=900)
@@ -536,6 +541,45 @@ def certify(ctx, G):
             mism.append(G.cases[m])
         ctx.cov["traces_validated_against_impl"] += nshard - len(miss)
     return mism
+
+
+def replay(ctx, rp):
+    """Re-run the recorded failing input on the implementation (./check C20 --replay <path>)."""
+    C.ensure_impl_path()
+    import importlib
+    import json
+
+    import numpy as np
+
+    filters = importlib.import_module("pydrobert.speech.filters")
+    util = importlib.import_module("pydrobert.speech.util")
+    f = rp.get("failure", {})
+    r = f.get("replay", {})
+    inp = r.get("input") or r.get("case") or {}
+    print("recorded failure:", f.get("what"))
+    try:
+        if "window" in inp:
+            kw = {k: inp[k] for k in ("order", "peak") if k in inp}
+            v = getattr(filters, inp["window"])(**kw).get_impulse_response(inp["width"])
+            print("now: len=%d sum=%r min=%r argmax=%r" % (len(v), float(v.sum()) if len(v) else 0.0,
+                                                        float(v.min()) if len(v) else None, int(np.argmax(v)) if len(v) else None))
+        elif "case" in inp or "vals" in inp:
+            c = inp.get("case", inp)
+            c["vals"] = [tuple(x) for x in c["vals"]]
+            arr, before, out = run_circshift(util, np, c)
+            print("now: out=%r input_unchanged=%r" % (out.tolist(), bool(np.array_equal(arr, before))))
+        elif "p" in inp:
+            print("now: gauss_quant(%r) = %r" % (inp["p"], util.gauss_quant(inp["p"], inp.get("mu", 0), inp.get("std", 1))))
+        elif "p1" in inp:
+            print("now: gauss_quant(%r) = %r, gauss_quant(%r) = %r" % (inp["p1"], util.gauss_quant(inp["p1"]), inp["p2"], util.gauss_quant(inp["p2"])))
+        elif "samp_rate" in inp:
+            sr = inp["samp_rate"]
+            print("now: hertz_to_angular(sr/2, sr) = %r" % util.hertz_to_angular(sr / 2, sr))
+        else:
+            print(json.dumps(r, indent=1, default=str))
+    except Exception as e:  # noqa: BLE001
+        print("now raises %s: %s" % (type(e).__name__, e))
+    return 0
 
 
 def run(ctx):
